@@ -136,18 +136,31 @@ static int c18_snprintf(char *s, size_t n, const char *fmt, uint64_t a)
 	}
 	return verif_snprintf(s, n);
 }
+/* the one-argument snprintf model is bound around ev_spec.c only (headers pulled in by model.c / setup.c
+ * have other snprintf uses: they keep the prelude's binding) */
 #undef snprintf
 #define snprintf(s, n, fmt, a) c18_snprintf((s), (n), (fmt), (uint64_t) (uintptr_t) (a))
-
 #define memcpy(d, s, n) c18_memcpy((d), (s), (n))
 #include "ev_spec.c"         /* the real /repo/src/emu/ev_spec.c */
 #undef memcpy
+#undef snprintf
+#define snprintf(s, n, ...) verif_snprintf((s), (n))
 #include "model_evspec.c"    /* model_evspec_find: replaced by its contract below */
 #include "model.c"           /* the real /repo/src/emu/model.c: model_event_print, check_payload */
+#include "spec/c18_shapes.h"
+#if defined(C18_SHAPE_OAR)
+#define C18_DECL_SIG C18_OAR_SIG
+#define C18_DECL_DESC C18_OAR_DESC
+#else
+#define C18_DECL_SIG C18_VYC_SIG
+#define C18_DECL_DESC C18_VYC_DESC
+#endif
+#ifdef C18_REAL_EVLIST
 #if defined(C18_SHAPE_OAR)
 #include "ovni/setup.c"      /* the real catalogue of the ovni model */
 #else
 #include "nosv/setup.c"      /* the real catalogue of the nosv model */
+#endif
 #endif
 
 #define RET __CPROVER_return_value
@@ -228,6 +241,7 @@ __CPROVER_ensures(g_rd.n <= 2 && IMPLIES(g_rd.n >= 1, g_rd.off[0] == 4 && g_rd.s
 
 void h_model_event_print(void)
 {
+#ifdef C18_REAL_EVLIST
 	struct ev_decl *decl = NULL;
 	for (int i = 0; i < 128 && model_evlist[i].signature != NULL; i++) {
 		const char *sg = model_evlist[i].signature;
@@ -235,7 +249,10 @@ void h_model_event_print(void)
 			decl = &model_evlist[i];
 	}
 	__CPROVER_assert(decl != NULL, "the event is listed in the real model_evlist");
-	int rc = ev_spec_compile(&g_es, decl);            /* the real compiler on the real declaration */
+#else
+	struct ev_decl decl0 = { C18_DECL_SIG, C18_DECL_DESC }, *decl = &decl0;
+#endif
+	int rc = ev_spec_compile(&g_es, decl);            /* the real compiler on the declaration */
 	__CPROVER_assert(rc == 0, "the declaration compiles");
 	g_find = &g_es;
 	g_find_null = nondet_bool();
